@@ -12,7 +12,9 @@ import (
 	"golang.org/x/tools/go/ssa"
 )
 
-func init() { register("C15", "parsing is total, position-accurate and compositional", checkC15) }
+func init() {
+	register("C15", "parsing is total, position-accurate and compositional", func(p *Program, r *Report) { checkC15(p, r); c15Publish(p, r) })
+}
 
 func checkC15(p *Program, r *Report) {
 	r.Explain("C15: R1 the scanner always makes progress and stops at the end of input: (a) every cycle of every Scanner method has a net cursor advance >= 1 (weights +1 for the advancing primitive, -1 for the retreating one, minimal success weights for helper methods; zero-weight cycles are searched in the product with 'cursor still on the character of the enclosing case', where conditions on that character are constant-folded); (b) with the cursor at the end (peek = EOF, the advancing primitive a no-op) every condition that depends on the current character is folded and no cycle remains reachable. " +
@@ -394,7 +396,7 @@ func c15Positions(p *Program, r *Report, sm *scanModel) {
 			continue
 		}
 		callsScan := false
-		storesPos := false
+		var posStores, tokStores []ssa.Instruction
 		for _, b := range fn.Blocks {
 			for _, in := range b.Instrs {
 				if c, ok := in.(*ssa.Call); ok && staticCallee(c) == scan {
@@ -404,15 +406,42 @@ func c15Positions(p *Program, r *Report, sm *scanModel) {
 					if fa, ok := st.Addr.(*ssa.FieldAddr); ok && isNamed(fa.X.Type(), modPath+"/parser", "Lexer") && isNamed(fieldOfAddr(fa).Type(), modPath+"/ast", "Position") {
 						if ex, ok := st.Val.(*ssa.Extract); ok {
 							if c, ok := ex.Tuple.(*ssa.Call); ok && staticCallee(c) == scan {
-								storesPos = true
+								posStores = append(posStores, st)
 							}
+						}
+					}
+					// the token handed to the parser (semantic value): lval.tok
+					if fa, ok := st.Addr.(*ssa.FieldAddr); ok && isNamed(fieldOfAddr(fa).Type(), modPath+"/ast", "Token") {
+						if _, isPar := fa.X.(*ssa.Parameter); isPar {
+							tokStores = append(tokStores, st)
 						}
 					}
 				}
 			}
 		}
 		if callsScan {
-			r.Check(storesPos, "C15.R5", funcName(fn)+"|records-position", p.Pos(fn.Pos()), "the lexer remembers the scanner's position of each token", "the lexer does not remember token positions: later syntax errors point elsewhere")
+			// on every path to every return: an early exit (for instance on a scanner error) that skips them leaves the position of the previous token in place
+			allPos, allTok := len(posStores) > 0, len(tokStores) > 0
+			for _, b := range fn.Blocks {
+				ret, ok := b.Instrs[len(b.Instrs)-1].(*ssa.Return)
+				if !ok {
+					continue
+				}
+				dp, dt := false, false
+				for _, st := range posStores {
+					if instrDominates(st, ret) {
+						dp = true
+					}
+				}
+				for _, st := range tokStores {
+					if instrDominates(st, ret) {
+						dt = true
+					}
+				}
+				allPos, allTok = allPos && dp, allTok && dt
+			}
+			r.Check(allPos, "C15.R5", funcName(fn)+"|records-position", p.Pos(fn.Pos()), "the lexer remembers the scanner's position of each token, on every path", "the lexer can return a token without having recorded its position (some path skips the store): a syntax error reported for it carries the position of the previous token, or 0:0 for the first one")
+			r.Check(allTok, "C15.R5", funcName(fn)+"|hands-token-over", p.Pos(fn.Pos()), "the token value given to the parser is set on every path", "the lexer can return a token code without setting the token value handed to the parser: the parser sees the previous token's text and position")
 		}
 	}
 }
@@ -618,4 +647,138 @@ func callsAny(fn *ssa.Function, pkg, name string) bool {
 func checkParsePath(p *Program, r *Report, rule string) {
 	parsePathLexer(p, r, rule)
 	parsePathActions(p, r, rule)
+}
+
+// c15Publish (R8): the statement list Parse returns is the one the grammar built last: whenever an action gives the list
+// nonterminal a (new) value, it also publishes that value in the lexer field Parse returns, on every path of the action.
+func c15Publish(p *Program, r *Report) {
+	sp := p.SSAPkg("parser")
+	if sp == nil {
+		return
+	}
+	// the field Parse returns
+	var resF *types.Var
+	for _, fn := range SrcFuncs(sp) {
+		if fn.Name() != "Parse" || fn.Signature.Recv() != nil {
+			continue
+		}
+		for _, b := range fn.Blocks {
+			if ret, ok := b.Instrs[len(b.Instrs)-1].(*ssa.Return); ok && len(ret.Results) == 2 {
+				if u, ok := ret.Results[0].(*ssa.UnOp); ok {
+					if fa, ok := u.X.(*ssa.FieldAddr); ok && isNamed(derefType(fa.X.Type()), modPath+"/parser", "Lexer") {
+						resF = fieldOfAddr(fa)
+					}
+				}
+			}
+		}
+	}
+	if resF == nil {
+		r.Undecided("C15.R8", "Parse|result field", "parser/lexer.go", "the lexer field returned by Parse was not identified")
+		return
+	}
+	var yy *ssa.Function
+	for _, fn := range SrcFuncs(sp) {
+		if fn.Name() == "Parse" && fn.Signature.Recv() != nil {
+			yy = fn
+		}
+	}
+	if yy == nil {
+		r.Undecided("C15.R8", "yyParse", "parser/parser.go", "generated parser not found")
+		return
+	}
+	isPub := func(in ssa.Instruction) (*types.Var, bool) {
+		st, ok := in.(*ssa.Store)
+		if !ok {
+			return nil, false
+		}
+		fa, ok := st.Addr.(*ssa.FieldAddr)
+		if !ok || fieldOfAddr(fa) != resF {
+			return nil, false
+		}
+		if u, ok := st.Val.(*ssa.UnOp); ok {
+			if vfa, ok := u.X.(*ssa.FieldAddr); ok {
+				return fieldOfAddr(vfa), true
+			}
+		}
+		return nil, true
+	}
+	var G *types.Var
+	nPub := 0
+	for _, b := range yy.Blocks {
+		for _, in := range b.Instrs {
+			if g, ok := isPub(in); ok {
+				nPub++
+				if g != nil {
+					G = g
+				}
+			}
+		}
+	}
+	if G == nil {
+		r.Fail("C15.R8", "yyParse|publication", p.Pos(yy.Pos()), "no grammar action stores the statement list into the field Parse returns")
+		return
+	}
+	n := 0
+	for _, b := range yy.Blocks {
+		for idx, in := range b.Instrs {
+			st, ok := in.(*ssa.Store)
+			if !ok {
+				continue
+			}
+			fa, ok := st.Addr.(*ssa.FieldAddr)
+			if !ok || fieldOfAddr(fa) != G || !isNamed(derefType(fa.X.Type()), modPath+"/parser", "yySymType") {
+				continue
+			}
+			if _, isParam := fa.X.(*ssa.Parameter); isParam {
+				continue
+			}
+			n++
+			// every path from here to the end of the action publishes the new value
+			published := func(blk *ssa.BasicBlock, from int) bool {
+				for _, in2 := range blk.Instrs[from:] {
+					if _, ok := isPub(in2); ok {
+						return true
+					}
+				}
+				return false
+			}
+			escape := ""
+			if !published(b, idx+1) {
+				seen := map[*ssa.BasicBlock]bool{}
+				work := []*ssa.BasicBlock{}
+				next := func(blk *ssa.BasicBlock) []*ssa.BasicBlock {
+					// `if l, ok := yylex.(*Lexer); ok { ... }`: only a *Lexer can be published to
+					if iff, ok := blk.Instrs[len(blk.Instrs)-1].(*ssa.If); ok {
+						if ex, ok := iff.Cond.(*ssa.Extract); ok && ex.Index == 1 {
+							if ta, ok := ex.Tuple.(*ssa.TypeAssert); ok && isNamed(derefType(ta.AssertedType), modPath+"/parser", "Lexer") {
+								return blk.Succs[:1]
+							}
+						}
+					}
+					return blk.Succs
+				}
+				work = append(work, next(b)...)
+				for len(work) > 0 && escape == "" {
+					blk := work[len(work)-1]
+					work = work[:len(work)-1]
+					if seen[blk] {
+						continue
+					}
+					seen[blk] = true
+					if len(blk.Preds) > 20 {
+						escape = "the end of the action"
+						break
+					}
+					if published(blk, 0) {
+						continue
+					}
+					work = append(work, next(blk)...)
+				}
+			}
+			r.Check(escape == "", "C15.R8", fmt.Sprintf("yyParse|list value set #%d", n), p.Pos(instrPos(st)), "published to the field Parse returns on every path of the action",
+				"an action gives the statement list a new value but a path reaches "+escape+" without storing it into the field Parse returns: Parse then returns a stale list (nil, or the list of an inner block)")
+		}
+	}
+	r.Floor("C15.R8", n, 2)
+	r.Note("C15.R8 publication stores", nPub)
 }
